@@ -118,4 +118,55 @@ def C11(ctx):
     sync_family(ctx, families.arcs_family(ctx.tier, ctx.seed))
 
 
-CHECKS = {"C10": C10, "C11": C11, "C01": C01, "C04": C04, "C05": C05, "C07": C07, "C08": C08, "C09": C09, "C02": C02, "C03": C03}
+def path_programs(ctx, n_per=None):
+    """programs whose paths mix the three branch kinds (schedule, load, spurious), yields, blocked threads"""
+    import random
+    rng = random.Random(ctx.seed * 12289 + 31)
+    pool = []
+    pool += [p for p in families.litmus(ctx.tier, ctx.seed, avoid=(families.q_mo,)) if len(p["threads"]) <= 4]
+    pool += families.syncmix(ctx.tier, ctx.seed)
+    pool += families.waits(ctx.tier, ctx.seed)
+    pool += families.chans(ctx.tier, ctx.seed)
+    n_per = n_per or (60 if ctx.tier == "quick" else 400)
+    rng.shuffle(pool)
+    return pool[:n_per]
+
+
+def C14(ctx):
+    import pathcheck
+    ctx.assumptions += ["the iteration hook hands over serde_json(rt::Path) after each iteration and after each step; "
+                        "ExploreTrace.tla re-computes Path::step from the recorded state and compares exactly",
+                        "termination is observed (the run returned) and implied by strict DFS advance on a finite tree"]
+    progs = path_programs(ctx)
+    cap = 3000 if ctx.tier == "quick" else 40000
+    res = core.run_loom(ctx, progs, cfg_of=lambda p: {"iter_cap": cap, "want_paths": True}, tag="paths")
+    runs = []
+    nontriv = 0
+    for i, (p, r) in enumerate(zip(progs, res)):
+        if r["end"].startswith("abort") or r["end"] == "hang":
+            ctx.violation("abort", p, r["end"], {"msg": r["msg"]})
+            continue
+        runs.append(({"prog": i}, r["hook_events"]))
+        # independent of the spec: decision sequences pairwise distinct, count = iterations
+        decs = [pathcheck.decisions(pathcheck.canon_path(path)) for (ph, it, path) in r["hook_events"] if ph == "end"]
+        if len(set(decs)) != len(decs):
+            ctx.violation("repeated-execution", p, {"iterations": len(decs), "distinct": len(set(decs))}, {})
+        if r["end"] == "ok" and len(decs) != r["iters"]:
+            ctx.violation("iteration-count", p, {"iterations": r["iters"], "paths": len(decs)}, {})
+        if len(decs) >= 2:
+            nontriv += 1
+        kinds = {e["k"] for (ph, it, path) in r["hook_events"][:3] if ph == "end" for e in pathcheck.canon_path(path)["br"]}
+        ctx.cov.setdefault("branch_kinds_seen", {})
+        for k in kinds:
+            ctx.cov["branch_kinds_seen"][k] = ctx.cov["branch_kinds_seen"].get(k, 0) + 1
+    rej = pathcheck.validate(ctx, runs)
+    for meta, info in rej:
+        ctx.violation("path-rejected", progs[meta["prog"]], info, {"note": "first hook event ExploreTrace could not match"})
+    ctx.cov["programs"] += len(progs)
+    ctx.cov["evaluations"] += sum(len(r["hook_events"]) for r in res)
+    ctx.cov["distinct_nontrivial"] += nontriv
+    if res and res[0]["hook_events"]:
+        ctx.cov["samples"].append({"program": dsl.pretty(progs[0]), "first_path": pathcheck.canon_path(res[0]["hook_events"][1][2]) if len(res[0]["hook_events"]) > 1 else None})
+
+
+CHECKS = {"C14": C14, "C10": C10, "C11": C11, "C01": C01, "C04": C04, "C05": C05, "C07": C07, "C08": C08, "C09": C09, "C02": C02, "C03": C03}
